@@ -788,29 +788,10 @@ func c15Run(t *rapid.T, tt *testing.T, st *vstats.Collector, tpl []byte,
 	m.height = int32(rapid.IntRange(10, 800000).Draw(t, "height"))
 	steps := rapid.IntRange(6, maxSteps).Draw(t, "steps")
 
-	// worlds
-	for _, name := range []string{"bbolt", "sqlite"} {
-		clk := newC15Clock(c15Epoch)
-		var (
-			db    invpkg.InvoiceDB
-			closd func()
-			err   error
-		)
-		if name == "bbolt" {
-			db, closd, err = c15OpenKV(clk)
-		} else {
-			db, closd, err = c15OpenSQL(tpl, clk)
-		}
-		if err != nil {
-			tt.Fatalf("harness: open %s: %v", name, err)
-		}
-		w, err := newC15World(name, db, closd, clk, m.cfg, m.height)
-		if err != nil {
-			t.Fatalf("[%s] world setup: %v", name, err)
-		}
-		m.worlds = append(m.worlds, w)
-		defer w.close()
-	}
+	m.openWorlds(tt, func(format string, a ...any) {
+		t.Fatalf(format, a...)
+	}, tpl)
+	defer m.closeWorlds()
 
 	addInvoice := func() {
 		spec := m.genInvoice(t)
@@ -1073,6 +1054,42 @@ func (m *c15Model) replayHitsPrecheck(s *c15Shard) bool {
 		int64(s.expiry) < int64(m.height)+int64(m.cfg.rejectDelta)
 }
 
+// openWorlds creates one registry per store, each on a fresh database.
+func (m *c15Model) openWorlds(tt *testing.T,
+	fatalf func(format string, a ...any), tpl []byte) {
+
+	for _, name := range []string{"bbolt", "sqlite"} {
+		clk := newC15Clock(c15Epoch)
+		var (
+			db    invpkg.InvoiceDB
+			closd func()
+			err   error
+		)
+		if name == "bbolt" {
+			db, closd, err = c15OpenKV(clk)
+		} else {
+			db, closd, err = c15OpenSQL(tpl, clk)
+		}
+		if err != nil {
+			m.closeWorlds()
+			tt.Fatalf("harness: open %s: %v", name, err)
+		}
+		w, err := newC15World(name, db, closd, clk, m.cfg, m.height)
+		if err != nil {
+			m.closeWorlds()
+			fatalf("[%s] world setup: %v", name, err)
+		}
+		m.worlds = append(m.worlds, w)
+	}
+}
+
+func (m *c15Model) closeWorlds() {
+	for _, w := range m.worlds {
+		w.close()
+	}
+	m.worlds = nil
+}
+
 func (m *c15Model) knownHashes() []lntypes.Hash {
 	var out []lntypes.Hash
 	for h := range m.worlds[0].snaps {
@@ -1221,6 +1238,82 @@ func (m *c15Model) finalLabels() {
 	}
 	if m.diverged {
 		m.label("differential_off_after_batch")
+	}
+}
+
+// TestVerifC15ReplayPrecheck is the deterministic form of known finding
+// C15:replay@spontaneous-expiry-precheck: a settled AMP / keysend HTLC that
+// is replayed after the chain advanced past expiry-FinalCltvRejectDelta is
+// answered with a fail when AcceptAMP / AcceptKeySend is on. While the key is
+// listed as known the divergence is only recorded; otherwise it is asserted.
+func TestVerifC15ReplayPrecheck(t *testing.T) {
+	st := vstats.New("TestVerifC15ReplayPrecheck")
+	defer st.Flush()
+	tpl := c15SqliteTemplate(t)
+
+	for _, kind := range []string{"amp", "keysend"} {
+		m := &c15Model{
+			shardByKey: make(map[invpkg.CircuitKey]*c15Shard),
+			labels:     make(map[string]struct{}),
+			nt:         make(map[string]struct{}),
+			now:        c15Epoch,
+			nonce:      7,
+			height:     100,
+			cfg: c15Cfg{
+				rejectDelta: 3, acceptKeysend: true, acceptAMP: true,
+			},
+		}
+		m.openWorlds(t, t.Fatalf, tpl)
+		ctx := context.Background()
+
+		s := &c15Shard{
+			key: invpkg.CircuitKey{
+				ChanID: lnwire.NewShortChanIDFromInt(1), HtlcID: 1,
+			},
+			amt: 1000, expiry: 103, fixed: true, kind: kind,
+		}
+		switch kind {
+		case "amp":
+			root := amp.Share(c15Hash("c15amp-root", m.nonce))
+			child := amp.SeedSharerFromRoot(&root).Child(0)
+			s.hash, s.share = child.Hash, root
+			s.setID = c15Hash("c15amp-set", m.nonce)
+			s.hasTotal, s.total = true, 1000
+			s.hasAddr, s.addr = true, c15Hash("c15addr", m.nonce)
+		default:
+			pre := lntypes.Preimage(c15Hash("c15kspre", m.nonce))
+			s.hash, s.keysend, s.keysendValid = pre.Hash(), pre[:], true
+		}
+		for _, w := range m.worlds {
+			class, _, err := w.notify(s, 100)
+			if err != nil || class != "settle" {
+				t.Fatalf("[%s] %s: first notification: %s %v",
+					w.name, kind, class, err)
+			}
+			class, d, err := w.notify(s, 101)
+			inv, lerr := w.reg.LookupInvoice(ctx, s.hash)
+			if lerr != nil {
+				t.Fatalf("[%s] lookup: %v", w.name, lerr)
+			}
+			state := inv.Htlcs[s.key].State
+			hit := class != "settle"
+			st.Case(vstats.FP(kind, w.name), true,
+				[]string{"kind=" + kind, "replay=" + class}, nil)
+			if !hit {
+				continue
+			}
+			msg := fmt.Sprintf("[%s] %s HTLC on record as %v is "+
+				"answered %s (%+v, err=%v) when replayed one "+
+				"block later", w.name, kind, state, class, d, err)
+			if vstats.IsKnown(c15KeyReplayPrecheck) {
+				st.Known(c15KeyReplayPrecheck)
+				t.Log("KNOWN: " + msg)
+
+				continue
+			}
+			t.Errorf("%s", msg)
+		}
+		m.closeWorlds()
 	}
 }
 
